@@ -147,6 +147,36 @@ thread_local! {
     static REPLY_STYLE: std::cell::Cell<bool> = const { std::cell::Cell::new(false) };
 }
 
+/// the reply a peer holding `records` (plus the PTR of its service, as ServiceDiscovery::new registers it) gives to
+/// the query that `query_service_instances` sends; None when the library produces no reply (not this property's claim)
+fn real_reply(records: &[ResourceRecord<'static>], owner: &Name<'static>, ttl: u32) -> Result<Option<Vec<u8>>, Fail> {
+    use simple_dns::{Question, TYPE};
+    let labels = owner.get_labels();
+    if labels.len() < 2 {
+        return Ok(None);
+    }
+    let service: Name<'static> = Name::new_with_labels(&labels[1..]).into_owned();
+    let mut store: ResourceRecordManager<'static> = ResourceRecordManager::new();
+    lib("add_authoritative_resource", || {
+        store.add_authoritative_resource(ResourceRecord::new(service.clone(), CLASS::IN, ttl, RData::PTR(PTR(owner.clone()))));
+        for r in records {
+            store.add_authoritative_resource(r.clone());
+        }
+    })?;
+    let mut q = Packet::new_query(0);
+    q.questions.push(Question::new(service.clone(), TYPE::SRV.into(), CLASS::IN.into(), false));
+    q.questions.push(Question::new(service, TYPE::TXT.into(), CLASS::IN.into(), false));
+    let qb = ser_compressed(&q)?;
+    let out = lib("build_reply", || match Packet::parse(&qb) {
+        Ok(query) => simple_mdns::verif::build_reply(query, &store).map(|(p, _)| p.build_bytes_vec_compressed()),
+        Err(_) => None,
+    })?;
+    Ok(match out {
+        Some(Ok(b)) => Some(b),
+        _ => None,
+    })
+}
+
 fn announcement_with(info: InstanceInformation, owner: &str, ttl: u32, foreign_additionals: &[&str]) -> Result<Vec<u8>, Fail> {
     let owner_name = Name::new(owner).map_err(|e| Fail::new("harness:name", format!("{}: {:?}", owner, e)))?.into_owned();
     let cached = RECORDS.with(|r| r.borrow().get(owner).cloned());
@@ -164,6 +194,13 @@ fn announcement_with(info: InstanceInformation, owner: &str, ttl: u32, foreign_a
             owned
         }
     };
+    if REPLY_STYLE.with(|x| x.get()) && ttl > 0 && foreign_additionals.is_empty() && records.iter().any(|r| matches!(r.rdata, RData::SRV(_))) {
+        // the peer answers the discoverer's own query (<service> SRV, <service> TXT) the way the responder
+        // side of the library does: its store, build_reply, compressed
+        if let Some(bytes) = real_reply(&records, &owner_name, ttl)? {
+            return Ok(bytes);
+        }
+    }
     let mut p = Packet::new_reply(1);
     for r in &records {
         if matches!(r.rdata, RData::A(_) | RData::AAAA(_)) {
@@ -513,14 +550,20 @@ fn peer_names() -> Vec<&'static str> {
 }
 
 fn attr_strategy() -> BoxedStrategy<Vec<(String, Option<String>)>> {
-    vec(
-        (
-            prop_oneof![4 => "[a-z]{1,5}", 2 => select(vec!["k;", "path", "Path", "PATH", "é", "K", "k", "PaperSize", "papersize"]).prop_map(|s| s.to_string())],
-            prop_oneof![1 => Just(None), 1 => Just(Some(String::new())), 3 => "[a-z0-9=]{1,6}".prop_map(Some)],
-        ),
-        0..4,
-    )
-    .boxed()
+    let ordinary = (
+        prop_oneof![4 => "[a-z]{1,5}", 2 => select(vec!["k;", "path", "Path", "PATH", "é", "K", "k", "PaperSize", "papersize"]).prop_map(|s| s.to_string()), 1 => "[ -<>-~]{1,4}"],
+        prop_oneof![1 => Just(None), 1 => Just(Some(String::new())), 3 => "[a-z0-9=]{1,6}".prop_map(Some), 1 => "[ -~]{1,6}".prop_map(Some)],
+    );
+    // entries at the upper bound of the domain: key[=value] of 253..=255 bytes
+    let boundary = (253usize..=255, "[a-z]{1,5}", any::<bool>()).prop_map(|(total, key, with_value)| {
+        if with_value {
+            let v = "v".repeat(total - key.len() - 1);
+            (key, Some(v))
+        } else {
+            (format!("{}{}", key, "k".repeat(total - key.len())), None)
+        }
+    });
+    vec(prop_oneof![12 => ordinary, 1 => boundary], 0..4).boxed()
 }
 
 fn strategy(_t: Tier) -> BoxedStrategy<Disc> {
